@@ -834,7 +834,9 @@ def run(R, tier, seed):
                       "push / pull over ssh: the COMMAND LINES handed to ssh by transfer_file_to_remote, transfer_file_from_remote and discover_remote_with_meta are decided as text "
                       "(obligations/shellcmd.py: remote path of 0..2 (quick) / 0..3 (thorough) characters, each any code point; bash's reading of $'..' is a contract validated natively), "
                       "and the push stream (every chunk read is written in full, Ok only after the pipe was closed and the remote command exited 0, at most 2 chunks); "
-                      "NOT covered: the remote mkdir / rm lists (`xargs -d '\\n'`), run_push / run_pull orchestration, what the remote commands themselves do, crash points (C09)"]
+                      "the lists piped to the remote `xargs .. mkdir -p` / `xargs .. rm -f --` (create_remote_dirs, apply_remote_deletes) are decided as text too: one delimiter-terminated "
+                      "`<root>/<rel>` entry per path and NO entry contains the delimiter the constant command makes xargs split at (root + 0..2 paths of 0..2 characters, any code point but NUL); "
+                      "NOT covered: run_push / run_pull orchestration, what the remote commands themselves do, crash points (C09)"]
     ctx = Ctx()
     prover = Prover(R, tier)
     for what, f in (("deliver_local", lambda: deliver_obligation(ctx, R, prover)), ("run_local", lambda: run_local_obligation(ctx, R, prover, 2 if tier == "quick" else 3))):
@@ -859,6 +861,16 @@ def remote_commands(R, tier, pid, which):
             getattr(shellcmd, what + "_obligation")(sctx, R, prover, pid, n)
         except (Inconclusive, Unsupported) as e:
             R.add("%s/%s/command/encoding" % (pid, what), "inconclusive", detail=str(e)[:400])
+    if "push" in which and pid == "C04":
+        for lw in ("rm", "mkdir"):
+            try:
+                shellcmd.list_pipe_obligation(sctx, R, prover, pid, lw, 2, 2)
+            except (Inconclusive, Unsupported) as e:
+                R.add("%s/push/%s-list/encoding" % (pid, lw), "inconclusive", detail=str(e)[:400])
+        try:
+            shellcmd.list_native_validation(R, pid)
+        except (Inconclusive, subprocess.TimeoutExpired) as e:
+            R.add("%s/push/lists/native" % pid, "inconclusive", detail=str(e)[:400])
     try:
         shellcmd.bash_contract_validation(R, pid)
         shellcmd.native_validation(R, pid, tuple(w for w in which if w != "list"))
@@ -868,7 +880,7 @@ def remote_commands(R, tier, pid, which):
 
 def replay(path):
     case = json.load(open(path))["case"]
-    if case.get("fn") == "remote_shell_transport":
+    if case.get("fn") in ("remote_shell_transport", "remote_list_newline"):
         from . import shellcmd
         shellcmd.replay_case(case)
         return 0
